@@ -3,6 +3,8 @@ package c18
 import (
 	"bytes"
 	"crypto"
+	"crypto/ecdsa"
+	"crypto/rsa"
 	"encoding/base64"
 	"encoding/binary"
 	"fmt"
@@ -49,6 +51,9 @@ type sigCase struct {
 	RefSign     bool   // the SIG(0) is made by the reference signer instead of SIG.Sign (Verify side only)
 	Pad         bool   // also try the ECDSA signature with a zero octet in front of r and s
 	AlgMismatch bool   // RSA only: also try a KEY record with the same public key under another RSA algorithm number
+	ShortR      int    // ECDSA, library-signed: n > 0 = sign with the n-th nonce whose point has an X with two leading zero octets (r short)
+	ShortS      bool   // ECDSA, library-signed, small messages: search the message ID for a digest that gives an s with two leading zero octets
+	RdLens      []int  // extra RDLENGTH values tried on the SIG record (besides the systematic sweep)
 	Sample      []int  // bit positions (reduced modulo the signed length) flipped in addition, for messages too long to enumerate
 	Muts        []Mut
 }
@@ -191,6 +196,48 @@ func checkSig0(c sigCase) (err error) {
 		pbt.Note(key, nontrivial, classes...)
 	}()
 
+	// the signer handed to SIG.Sign: deterministic; for ECDSA optionally with a chosen nonce so that r
+	// (nonce whose point has a short X) and/or s (message ID searched for a suitable digest) has two
+	// leading zero octets - valid signatures that a random signer produces about once in 32768 times
+	var signer crypto.Signer = ref.DetSigner{Key: priv}
+	if ek, ok := priv.(*ecdsa.PrivateKey); ok && !c.RefSign && (c.ShortR > 0 || c.ShortS) {
+		nonce := ref.ShortXNonce(c.Alg, c.ShortR-1)
+		if c.ShortR == 0 {
+			nonce = nil
+			if nk, e := ref.ECDSAKeyFromSeed(c.Alg, append([]byte("nonce"), c.KeySeed...)); e == nil {
+				nonce = nk.D
+			}
+		}
+		if nonce != nil {
+			if plan, e := ref.NewNoncePlan(ek, nonce); e == nil {
+				signer = ref.NonceSigner{Key: ek, K: nonce}
+				if c.ShortR > 0 {
+					classes = append(classes, "ecdsa-r-with-2-leading-zero-octets")
+				}
+				if c.ShortS && len(packed) <= 600 {
+					rd := (&ref.Sig{Algorithm: c.Alg, Expiration: expir, Inception: incep, KeyTag: tag, Signer: signerAsL}).RdataNoSig()
+					buf := append(append([]byte(nil), rd...), packed...)
+					hf := crypto.SHA256
+					if c.Alg == ref.AlgECDSAP384 {
+						hf = crypto.SHA384
+					}
+					found := false
+					for id := 0; id < 65536 && !found; id++ {
+						buf[len(rd)], buf[len(rd)+1] = byte(id>>8), byte(id)
+						h := hf.New()
+						h.Write(buf)
+						if plan.LeadingZeroOctets(plan.S(h.Sum(nil))) >= 2 {
+							found = true
+							c.Msg.ID = uint16(id)
+							packed[0], packed[1] = byte(id>>8), byte(id)
+						}
+					}
+					classes = append(classes, fmt.Sprintf("ecdsa-s-with-2-leading-zero-octets-found=%v", found))
+				}
+			}
+		}
+	}
+
 	// (1) signing
 	var out []byte
 	if c.RefSign {
@@ -204,7 +251,7 @@ func checkSig0(c sigCase) (err error) {
 		sig.Inception, sig.Expiration = incep, expir
 		m := c.Msg.Build()
 		var serr error
-		out, serr = sig.Sign(ref.DetSigner{Key: priv}, m)
+		out, serr = sig.Sign(signer, m)
 		if serr != nil {
 			return pbt.Errf("SIG.Sign failed: %v (alg %d, Compress=%v, packed message %d octets, %d additional records)", serr, c.Alg, c.Msg.Compress, len(packed), len(c.Msg.Extra))
 		}
@@ -333,9 +380,10 @@ func checkSig0(c sigCase) (err error) {
 			addBit(b)
 		}
 		sigBits := len(out) * 8
-		if len(out) > 16384 {
-			// very long messages (every flip costs a hash over all of it): every bit of the SIG
-			// record up to the signature field, and sampled bits of the signature itself
+		if len(out) > 16384 || len(out)-last.RData > 400 {
+			// very long messages (every flip costs a hash over all of it) and very long signatures
+			// (RSA keys of 3072 / 4096 bits): every bit of the SIG record up to the signature field,
+			// and sampled bits of the signature itself
 			if _, so, e := ref.ParseSig(out, last); e == nil {
 				sigBits = so * 8
 				for i, s := range c.Sample {
@@ -422,6 +470,38 @@ func checkSig0(c sigCase) (err error) {
 			}
 		}
 		pbt.Class("structural-signature-variant")
+	}
+
+	// the RDLENGTH of the SIG record swept over small values, values around the fixed fields and
+	// the signer name, around the true value, the extremes and a few drawn ones: never a panic;
+	// RDLENGTH is not among the signed octets, so acceptance is judged by reference consensus
+	trueLen := len(out) - last.RData
+	lens := map[int]bool{}
+	for v := 0; v <= 18+len(signerAsL.Wire())+4; v++ {
+		lens[v] = true
+	}
+	for _, v := range []int{trueLen - 2, trueLen - 1, trueLen + 1, trueLen + 2, trueLen / 2, 255, 256, 32767, 32768, 65535} {
+		lens[v] = true
+	}
+	for _, v := range c.RdLens {
+		lens[v] = true
+	}
+	var lenList []int
+	for v := range lens {
+		if v >= 0 && v <= 65535 && v != trueLen {
+			lenList = append(lenList, v)
+		}
+	}
+	sort.Ints(lenList)
+	for _, v := range lenList {
+		x := append([]byte(nil), out...)
+		binary.BigEndian.PutUint16(x[last.Fixed+8:], uint16(v))
+		if libAccepts(rsig, k, x, len(x) <= 512) {
+			// nothing that is signed changed: the consensus verdict (reference with TYPE / RDLENGTH of
+			// the final record normalised) is the one of the untampered message, i.e. valid
+			pbt.Class("rdlength-value-accepted(not asserted)")
+		}
+		pbt.Class("rdlength-value")
 	}
 
 	// (3) robustness: truncations and generated mutations never panic and are never accepted
@@ -544,7 +624,10 @@ func sigLen(alg uint8, priv crypto.PrivateKey) int {
 	case ref.AlgECDSAP384:
 		return 96
 	}
-	return 128 // 1024-bit pool keys
+	if p, ok := priv.(*rsa.PrivateKey); ok {
+		return p.Size()
+	}
+	return 128
 }
 
 func abs(x int64) int64 {
@@ -630,7 +713,11 @@ func genSig0(t *rapid.T) sigCase {
 	c.Alg = rapid.SampledFrom(sigAlgs).Draw(t, "alg")
 	c.KeySlot = rapid.IntRange(0, ref.RSAPoolSize()-1).Draw(t, "slot")
 	c.KeySeed = rapid.SliceOfN(rapid.Byte(), 1, 40).Draw(t, "seed")
-	sn := gen.Name(t, gen.NameOpts{MaxLabs: 4, MaxLabel: 10, Plain: rapid.IntRange(0, 3).Draw(t, "plainsigner") > 0})
+	sno := gen.NameOpts{MaxLabs: 4, MaxLabel: 10, Plain: rapid.IntRange(0, 3).Draw(t, "plainsigner") > 0}
+	if rapid.IntRange(0, 4).Draw(t, "longsigner") == 0 {
+		sno.MaxLabs, sno.MaxLabel, sno.Long = 8, 63, rapid.Bool().Draw(t, "verylong")
+	}
+	sn := gen.Name(t, sno)
 	c.Signer = wm.EscName(sn)
 	c.SignerAs = c.Signer
 	if rapid.IntRange(0, 2).Draw(t, "sc") == 0 {
@@ -640,6 +727,17 @@ func genSig0(t *rapid.T) sigCase {
 	c.RefSign = rapid.IntRange(0, 3).Draw(t, "refsign") == 0
 	c.Pad = rapid.IntRange(0, 1).Draw(t, "pad") == 0
 	c.AlgMismatch = rapid.Bool().Draw(t, "algmismatch")
+	if c.Alg == ref.AlgECDSAP256 || c.Alg == ref.AlgECDSAP384 {
+		if rapid.IntRange(0, 3).Draw(t, "shortr") == 0 {
+			c.ShortR = 1 + rapid.IntRange(0, ref.ShortXCount(c.Alg)-1).Draw(t, "shortrn")
+		}
+		c.ShortS = rapid.IntRange(0, 7).Draw(t, "shorts") == 0
+	}
+	if (c.Alg == ref.AlgRSASHA1 || c.Alg == ref.AlgRSASHA256 || c.Alg == ref.AlgRSASHA512) && rapid.IntRange(0, 7).Draw(t, "edgekey") == 0 {
+		// keys at the library's bounds: 512-octet modulus, one- and four-octet exponents
+		c.KeySlot = ref.RSAEdgeBase + rapid.IntRange(0, ref.RSAEdgeSize()-1).Draw(t, "edgeslot")
+	}
+	c.RdLens = rapid.SliceOfN(rapid.IntRange(0, 65535), 0, 3).Draw(t, "rdlens")
 	c.Sample = rapid.SliceOfN(rapid.IntRange(0, 1<<22), 48, 48).Draw(t, "sample")
 	nm := rapid.IntRange(0, 6).Draw(t, "nmut")
 	for i := 0; i < nm; i++ {
